@@ -204,68 +204,91 @@ func predicateClass(fn *ssa.Function) (set [256]bool, err string) {
 // loopClass: fn scans a byte slice parameter in a loop, looking at one byte per iteration; the
 // bytes for which the loop goes on to the next iteration (rather than leaving the loop).
 func loopClass(fn *ssa.Function) (set [256]bool, err string) {
-	// the byte load inside a cycle: *(&buf[i]) with buf a []byte parameter
-	var load *ssa.UnOp
+	// the byte read inside a cycle: *(&buf[i]) with buf a []byte parameter, or s[i] with s a string parameter
+	var load ssa.Value
+	var loadIns ssa.Instruction
 	var scc []*ssa.BasicBlock
+	isParam := func(v ssa.Value) bool {
+		for _, p := range fn.Params {
+			if v == ssa.Value(p) || isSpillOf(v, p) {
+				return true
+			}
+		}
+		return false
+	}
 	for _, comp := range sccBlocks(fn.Blocks, nil) {
 		if len(comp) < 2 {
 			continue
 		}
 		for _, b := range comp {
 			for _, ins := range b.Instrs {
-				ld, ok := ins.(*ssa.UnOp)
-				if !ok || ld.Op != token.MUL {
-					continue
-				}
-				ia, ok := ld.X.(*ssa.IndexAddr)
-				if !ok {
-					continue
-				}
-				isParam := false
-				for _, p := range fn.Params {
-					if ia.X == ssa.Value(p) || isSpillOf(ia.X, p) {
-						isParam = true
+				var cand ssa.Value
+				switch x := ins.(type) {
+				case *ssa.UnOp:
+					if x.Op == token.MUL {
+						if ia, ok := x.X.(*ssa.IndexAddr); ok && isParam(ia.X) {
+							cand = x
+						}
+					}
+				case *ssa.Index:
+					if bt, ok := x.X.Type().Underlying().(*types.Basic); ok && bt.Info()&types.IsString != 0 && isParam(x.X) {
+						cand = x
 					}
 				}
-				if bt, ok := ld.Type().Underlying().(*types.Basic); ok && bt.Kind() == types.Uint8 && isParam {
+				if cand == nil {
+					continue
+				}
+				if bt, ok := cand.Type().Underlying().(*types.Basic); ok && bt.Kind() == types.Uint8 {
 					// the first read of the iteration: the one whose block dominates the others
-					if load == nil || (b != load.Block() && b.Dominates(load.Block())) {
-						load, scc = ld, comp
+					if load == nil || (b != loadIns.Block() && b.Dominates(loadIns.Block())) {
+						load, loadIns, scc = cand, ins, comp
 					}
 				}
 			}
 		}
 	}
 	if load == nil {
-		return set, "no byte of a slice parameter is read inside a loop"
+		return set, "no byte of a slice or string parameter is read inside a loop"
 	}
 	inLoop := map[*ssa.BasicBlock]bool{}
 	for _, b := range scc {
 		inLoop[b] = true
 	}
 	idx := 0
-	for i, ins := range load.Block().Instrs {
-		if ins == ssa.Instruction(load) {
+	for i, ins := range loadIns.Block().Instrs {
+		if ins == loadIns {
 			idx = i + 1
 		}
+	}
+	sameElem := func(v ssa.Value) bool {
+		switch x := v.(type) {
+		case *ssa.UnOp:
+			l0, ok := load.(*ssa.UnOp)
+			if !ok || x.Op != token.MUL {
+				return false
+			}
+			ia, ok1 := x.X.(*ssa.IndexAddr)
+			ia0, ok2 := l0.X.(*ssa.IndexAddr)
+			return ok1 && ok2 && (sameAddr(ia, ia0) || (ia.X == ia0.X && ia.Index == ia0.Index))
+		case *ssa.Index:
+			l0, ok := load.(*ssa.Index)
+			return ok && x.X == l0.X && x.Index == l0.Index
+		}
+		return false
 	}
 	for v := 0; v < 256; v++ {
 		in := &bcInterp{}
 		env := map[ssa.Value]bcVal{load: {true, int64(v)}}
-		// other loads of the same element in the iteration read the same byte
+		// other reads of the same element in the iteration read the same byte
 		for _, b := range scc {
 			for _, ins := range b.Instrs {
-				if ld, ok := ins.(*ssa.UnOp); ok && ld != load && ld.Op == token.MUL {
-					if ia, ok := ld.X.(*ssa.IndexAddr); ok {
-						if ia0 := load.X.(*ssa.IndexAddr); sameAddr(ia, ia0) || (ia.X == ia0.X && ia.Index == ia0.Index) {
-							env[ld] = bcVal{true, int64(v)}
-						}
-					}
+				if val, ok := ins.(ssa.Value); ok && val != load && sameElem(val) {
+					env[val] = bcVal{true, int64(v)}
 				}
 			}
 		}
-		at, _, ok := in.walk(load.Block(), idx, env, func(b *ssa.BasicBlock) bool {
-			return !inLoop[b] || b == load.Block() || b.Dominates(load.Block())
+		at, _, ok := in.walk(loadIns.Block(), idx, env, func(b *ssa.BasicBlock) bool {
+			return !inLoop[b] || b == loadIns.Block() || b.Dominates(loadIns.Block())
 		})
 		if !ok {
 			if in.err == "" {
